@@ -8,7 +8,7 @@ result type `Outcome α` has exactly the constructors `ok` and `err`; Lean accep
 recursion (on the nesting fuel / the element count / the parameter-loop fuel), which is the termination proof.
 `outcome_total` states the "value or error" half explicitly.
 -/
-import ScyllaVerif.Proofs.Decode
+import ScyllaVerif.Proofs.DecodeAlloc
 
 namespace ScyllaVerif.Props.C08
 open ScyllaVerif.C08
@@ -21,5 +21,312 @@ theorem outcome_total (f : Features) (cached : Option ResultMeta) (decomp : Opti
   cases h : (decode f cached decomp bs).1 with
   | ok d => exact .inl ⟨d, rfl⟩
   | err k => exact .inr ⟨k, rfl⟩
+
+/-! ### allocation proportional to the input, recursion depth bounded
+
+`St.alloc` counts every element slot requested through `Vec::with_capacity` / `HashMap::with_capacity` where the
+(fixed) Rust code requests them; `St.depth` the deepest recursion level of the two type parsers.  Both bounds hold
+whether decoding succeeds or fails. -/
+
+private theorem body_bounds (f : Features) (cached : Option ResultMeta) (h : Header) (body : Bytes) :
+    (decodeBody f cached h body).2.alloc ≤ 2 * body.length + 131070 ∧
+    (decodeBody f cached h body).2.depth ≤ 257 := by
+  unfold decodeBody
+  have h1 := aw2_parseExt h.flags { buf := body }
+  cases he : parseExt h.flags { buf := body } with
+  | mk o s1 =>
+    rw [he] at h1
+    cases o with
+    | err k => simp only [U16, DEPTH_BOUND] at h1 ⊢; omega
+    | ok ext =>
+      simp only [U16, DEPTH_BOUND] at h1 ⊢
+      have h2 := aw2_deserResponse f h.opcode s1
+      cases hr : deserResponse f h.opcode s1 with
+      | mk o2 s2 =>
+        rw [hr] at h2
+        cases o2 with
+        | err k => simp only [U16, DEPTH_BOUND] at h2 ⊢; omega
+        | ok resp =>
+          simp only [U16, DEPTH_BOUND] at h2 ⊢
+          split
+          · rename_i r
+            unfold rowsStage
+            have h3 := aw2_deserMetadata r cached s2
+            cases hm : deserMetadata r cached s2 with
+            | mk o3 s3 =>
+              rw [hm] at h3
+              cases o3 with
+              | err k => simp only [U16, DEPTH_BOUND] at h3 ⊢; omega
+              | ok d => simp only [U16, DEPTH_BOUND] at h3 ⊢; omega
+          · simp only []; omega
+
+/-- Requested allocation is proportional to the size of the (decompressed) body: at most two element slots per
+input byte plus two `u16`-counted lists (the only counts taken as sent), whatever the bytes are. -/
+theorem alloc_proportional_body (f : Features) (cached : Option ResultMeta) (h : Header) (body : Bytes) :
+    (decodeBody f cached h body).2.alloc ≤ 2 * body.length + 131070 :=
+  (body_bounds f cached h body).1
+
+private theorem parseFrame_body_le (bs : Bytes) (h : Header) (hp : parseFrame bs = .ok h) :
+    h.body.length ≤ bs.length := by
+  unfold parseFrame at hp
+  simp only [] at hp
+  split at hp
+  · simp at hp
+  · split at hp
+    · simp at hp
+    · split at hp
+      · simp at hp
+      · split at hp
+        · simp at hp
+        · split at hp
+          · simp at hp
+          · split at hp
+            · simp at hp
+            · injection hp with hp
+              subst hp
+              simp only [List.length_take, List.length_drop, HEADER_SIZE]
+              omega
+
+/-- The whole pipeline on an uncompressed connection: `allocReq ≤ K · bs.length + K₀` with `K = 2`, `K₀ = 131070`. -/
+theorem alloc_proportional (f : Features) (cached : Option ResultMeta) (bs : Bytes) :
+    (decode f cached none bs).2.alloc ≤ 2 * bs.length + 131070 := by
+  unfold decode
+  cases hp : parseFrame bs with
+  | error k => simp
+  | ok h =>
+    have hl := parseFrame_body_le bs h hp
+    simp only []
+    split
+    · simp
+    · have := alloc_proportional_body f cached h h.body
+      omega
+
+/-- With a negotiated decompressor whose expansion is bounded (`R · len + R₀`; the LZ4 / Snappy guards of
+`decompress` enforce 255·len + 64 resp. 64·len + 64 on the declared size) the bound is relative to that. -/
+theorem alloc_proportional_compressed (f : Features) (cached : Option ResultMeta) (d : Bytes → Option Bytes)
+    (R R0 : Nat) (hd : ∀ b b', d b = some b' → b'.length ≤ R * b.length + R0) (bs : Bytes) :
+    (decode f cached (some d) bs).2.alloc ≤ 2 * ((R + 1) * bs.length + R0) + 131070 := by
+  unfold decode
+  cases hp : parseFrame bs with
+  | error k => simp
+  | ok h =>
+    have hl := parseFrame_body_le bs h hp
+    simp only []
+    split
+    · cases hdb : d h.body with
+      | none => simp
+      | some body =>
+        simp only []
+        have h1 := alloc_proportional_body f cached h body
+        have h2 := hd _ _ hdb
+        have : R * h.body.length ≤ R * bs.length := Nat.mul_le_mul_left _ hl
+        rw [Nat.add_mul]; omega
+    · have := alloc_proportional_body f cached h h.body
+      rw [Nat.add_mul]; omega
+
+/-- Recursion depth is bounded by a constant, whatever the bytes are: at most 129 nested binary type
+descriptions (depth 0..128) plus 128 nested `do_parse` calls of the custom type string parser. -/
+theorem depth_bounded (f : Features) (cached : Option ResultMeta) (decomp : Option (Bytes → Option Bytes))
+    (bs : Bytes) : (decode f cached decomp bs).2.depth ≤ 128 + 129 := by
+  unfold decode
+  cases hp : parseFrame bs with
+  | error k => simp
+  | ok h =>
+    simp only []
+    split
+    · cases decomp with
+      | none => simp
+      | some d =>
+        simp only []
+        cases hdb : d h.body with
+        | none => simp
+        | some body => exact (body_bounds f cached h body).2
+    · exact (body_bounds f cached h h.body).2
+
+/-! ### wire encoders written from the protocol specification (§3 of native_protocol_v4.spec) -/
+
+def encShort (n : Nat) : Bytes := [UInt8.ofNat (n / 256), UInt8.ofNat (n % 256)]
+def encInt (v : Int) : Bytes :=
+  let u : Nat := (v % 2 ^ 32).toNat
+  [UInt8.ofNat (u / 2 ^ 24), UInt8.ofNat (u / 2 ^ 16 % 256), UInt8.ofNat (u / 2 ^ 8 % 256), UInt8.ofNat (u % 256)]
+def encString (s : Bytes) : Bytes := encShort s.length ++ s
+def encBytesOpt : Option Bytes → Bytes
+  | none => encInt (-1)
+  | some b => encInt b.length ++ b
+
+theorem takeN_append (xs rest : Bytes) (k : String) (s : St) (hs : s.buf = xs ++ rest) :
+    takeN xs.length k s = (.ok xs, { s with buf := rest }) := by
+  unfold takeN
+  simp [hs]
+
+theorem takeN_short (n : Nat) (k : String) (s : St) (h : s.buf.length < n) : takeN n k s = (.err k, s) := by
+  unfold takeN; simp [h]
+
+theorem beNat_encShort (n : Nat) (h : n < 65536) : beNat (encShort n) = n := by
+  simp only [encShort, beNat, List.foldl, UInt8.toNat_ofNat']
+  omega
+
+theorem readShort_roundtrip (n : Nat) (h : n < 65536) (rest : Bytes) (s : St) (hs : s.buf = encShort n ++ rest) :
+    readShort s = (.ok n, { s with buf := rest }) := by
+  unfold readShort
+  have := takeN_append (encShort n) rest "eof" s hs
+  simp only [encShort, List.length_cons, List.length_nil] at this
+  simp only [bind_def, this, pure_def]
+  rw [show [UInt8.ofNat (n / 256), UInt8.ofNat (n % 256)] = encShort n from rfl, beNat_encShort n h]
+
+theorem beNat_encInt (v : Int) : beNat (encInt v) = (v % 2 ^ 32).toNat := by
+  simp only [encInt, beNat, List.foldl, UInt8.toNat_ofNat']
+  have : (v % 2 ^ 32).toNat < 2 ^ 32 := by omega
+  omega
+
+theorem readInt_roundtrip (v : Int) (h : -2 ^ 31 ≤ v ∧ v < 2 ^ 31) (rest : Bytes) (s : St)
+    (hs : s.buf = encInt v ++ rest) : readInt s = (.ok v, { s with buf := rest }) := by
+  unfold readInt
+  have := takeN_append (encInt v) rest "eof" s hs
+  have hl : (encInt v).length = 4 := rfl
+  rw [hl] at this
+  simp only [bind_def, this, pure_def, beNat_encInt, toSigned]
+  congr 2
+  split <;> omega
+
+theorem readString_roundtrip (str : Bytes) (hl : str.length < 65536) (hu : utf8ok str = true) (rest : Bytes) (s : St)
+    (hs : s.buf = encString str ++ rest) : readString s = (.ok str, { s with buf := rest }) := by
+  unfold readString
+  have h1 := readShort_roundtrip str.length hl (str ++ rest) s (by simp [hs, encString])
+  have h2 := takeN_append str rest "few" { s with buf := str ++ rest } rfl
+  simp only [bind_def, h1, readRaw, h2, checkUtf8, hu, if_true, pure_def]
+
+/-- A `[string]` cut anywhere is an error, never a different string. -/
+theorem readString_truncation (str : Bytes) (hl : str.length < 65536) (p t : Bytes) (ht : t ≠ [])
+    (hp : p ++ t = encString str) (s : St) (hs : s.buf = p) : ∃ k, (readString s).1 = .err k := by
+  unfold readString
+  by_cases h2 : p.length < 2
+  · refine ⟨"eof", ?_⟩
+    simp only [bind_def, readShort, takeN_short 2 "eof" s (by rw [hs]; exact h2)]
+  · -- the two length bytes are intact, the payload is short
+    have hlen : p.length + t.length = 2 + str.length := by
+      have := congrArg List.length hp
+      simp [encString, encShort] at this
+      omega
+    have htl : 0 < t.length := List.length_pos_iff.mpr ht
+    obtain ⟨q, hq⟩ : ∃ q, p = encShort str.length ++ q := by
+      refine ⟨p.drop 2, ?_⟩
+      have h3 : p.take 2 = (encString str).take 2 := by
+        rw [← hp, List.take_append_of_le_length (by omega)]
+      have h4 : (encString str).take 2 = encShort str.length := by simp [encString, encShort]
+      rw [← h4, ← h3, List.take_append_drop]
+    have h1 := readShort_roundtrip str.length hl q s (by rw [hs, hq])
+    have hql : q.length < str.length := by
+      have := congrArg List.length hq
+      simp [encShort] at this
+      omega
+    refine ⟨"few", ?_⟩
+    simp only [bind_def, h1, readRaw, takeN_short str.length "few" { s with buf := q } hql]
+
+theorem readBytesOpt_roundtrip (o : Option Bytes) (ho : ∀ b, o = some b → b.length < 2 ^ 31) (rest : Bytes) (s : St)
+    (hs : s.buf = encBytesOpt o ++ rest) : readBytesOpt s = (.ok o, { s with buf := rest }) := by
+  unfold readBytesOpt
+  cases o with
+  | none =>
+    have h1 := readInt_roundtrip (-1) (by omega) rest s (by simpa [encBytesOpt] using hs)
+    simp [bind_def, h1]
+  | some b =>
+    have hb := ho b rfl
+    have h1 := readInt_roundtrip (b.length : Int) (by omega) (b ++ rest) s (by simp [hs, encBytesOpt])
+    have h2 := takeN_append b rest "few" { s with buf := b ++ rest } rfl
+    have hn : ¬ ((b.length : Int) < 0) := by omega
+    simp only [bind_def, h1, hn, if_false, readRaw, Int.toNat_natCast, h2, pure_def]
+
+/-- A primitive that is cut short is an error: `takeN` never invents bytes. -/
+theorem readInt_truncation (s : St) (h : s.buf.length < 4) : ∃ k, (readInt s).1 = .err k :=
+  ⟨"eof", by simp only [readInt, bind_def, takeN_short 4 "eof" s h]⟩
+
+theorem readShort_truncation (s : St) (h : s.buf.length < 2) : ∃ k, (readShort s).1 = .err k :=
+  ⟨"eof", by simp only [readShort, bind_def, takeN_short 2 "eof" s h]⟩
+
+/-- Negative counts / lengths are rejected (`read_int_length`): the `as usize` on a negative `i32` cannot happen. -/
+theorem readIntLength_negative (v : Int) (h : -2 ^ 31 ≤ v ∧ v < 0) (rest : Bytes) (s : St)
+    (hs : s.buf = encInt v ++ rest) : (readIntLength s).1 = .err "negint" := by
+  unfold readIntLength
+  have h1 := readInt_roundtrip v (by omega) rest s hs
+  simp [bind_def, h1, h.2]
+
+/-! ### well-formed responses decode to exactly what was encoded
+
+FULL STATEMENT (kept): `wellformed_roundtrip : ∀ feats r, WF r → decode feats (encodeResp feats r) = ok r` for every
+response value of every kind.  PROVED below: the primitives it is built from (`[short]`, `[int]`, `[string]`,
+`[bytes]` incl. null) and the kinds READY, AUTHENTICATE, AUTH_CHALLENGE, AUTH_SUCCESS, RESULT/Void,
+RESULT/SetKeyspace (`wellformed_roundtrip_partial`).  MISSING: ERROR, SUPPORTED, EVENT, RESULT/Rows, /Prepared,
+/SchemaChange (their loops need the `loopN` round-trip lemma and, for nested column types, a mutual induction over
+`Ty`); for those kinds "decodes to exactly what was encoded" is checked on every run by the harness oracle against an
+encoder written independently of the driver (tens of thousands of generated values per run). -/
+
+/-- The response kinds covered by the proved round trip, with their opcode and body per the protocol spec. -/
+def encSimple : Response → Option (Nat × Bytes)
+  | .ready => some (0x02, [])
+  | .authenticate n => some (0x03, encString n)
+  | .authChallenge m => some (0x0E, encBytesOpt m)
+  | .authSuccess m => some (0x10, encBytesOpt m)
+  | .result .void => some (0x08, encInt 1)
+  | .result (.setKeyspace ks) => some (0x08, encInt 3 ++ encString ks)
+  | _ => none
+
+/-- Well-formedness: strings are UTF-8 and fit their `u16` length, byte strings fit an `i32` length. -/
+def wfSimple : Response → Prop
+  | .authenticate n => n.length < 65536 ∧ utf8ok n = true
+  | .authChallenge m => ∀ b, m = some b → b.length < 2 ^ 31
+  | .authSuccess m => ∀ b, m = some b → b.length < 2 ^ 31
+  | .result (.setKeyspace ks) => ks.length < 65536 ∧ utf8ok ks = true
+  | _ => True
+
+theorem wellformed_roundtrip_partial (f : Features) (r : Response) (op : Nat) (body rest : Bytes)
+    (he : encSimple r = some (op, body)) (hw : wfSimple r) :
+    deserResponse f op { buf := body ++ rest } = (.ok r, { buf := rest }) := by
+  cases r with
+  | ready => simp [encSimple] at he; obtain ⟨rfl, rfl⟩ := he; simp [deserResponse]
+  | authenticate n =>
+    simp [encSimple] at he; obtain ⟨rfl, rfl⟩ := he
+    have := readString_roundtrip n hw.1 hw.2 rest { buf := encString n ++ rest } rfl
+    simp [deserResponse, tag_def, this]
+  | authChallenge m =>
+    simp [encSimple] at he; obtain ⟨rfl, rfl⟩ := he
+    have := readBytesOpt_roundtrip m hw rest { buf := encBytesOpt m ++ rest } rfl
+    simp [deserResponse, tag_def, this]
+  | authSuccess m =>
+    simp [encSimple] at he; obtain ⟨rfl, rfl⟩ := he
+    have := readBytesOpt_roundtrip m hw rest { buf := encBytesOpt m ++ rest } rfl
+    simp [deserResponse, tag_def, this]
+  | result rr =>
+    cases rr with
+    | void =>
+      simp [encSimple] at he; obtain ⟨rfl, rfl⟩ := he
+      have := readInt_roundtrip 1 (by omega) rest { buf := encInt 1 ++ rest } rfl
+      simp [deserResponse, deserResult, tag_def, this]
+    | setKeyspace ks =>
+      simp [encSimple] at he; obtain ⟨rfl, rfl⟩ := he
+      have h1 := readInt_roundtrip 3 (by omega) (encString ks ++ rest) { buf := encInt 3 ++ (encString ks ++ rest) } rfl
+      have h2 := readString_roundtrip ks hw.1 hw.2 rest { buf := encString ks ++ rest } rfl
+      simp [deserResponse, deserResult, tag_def, h1, h2]
+    | rows _ => simp [encSimple] at he
+    | prepared _ => simp [encSimple] at he
+    | schemaChange _ => simp [encSimple] at he
+  | error _ => simp [encSimple] at he
+  | supported _ => simp [encSimple] at he
+  | event _ => simp [encSimple] at he
+
+/-! ### non-vacuity: concrete frames -/
+
+/-- READY frame `84 00 0000 02 00000000` decodes. -/
+example : ∃ d, (decode {} none none [0x84, 0, 0, 0, 0x02, 0, 0, 0, 0]).1 = .ok d := by
+  refine ⟨_, ?_⟩; decide
+
+/-- A RESULT/Rows body announcing `i32::MAX` columns (the F4 input) is an error and requests at most 3 slots. -/
+example : (decode {} none none [0x84, 0, 0, 0, 0x08, 0, 0, 0, 12, 0, 0, 0, 2, 0, 0, 0, 0, 0x7f, 0xff, 0xff, 0xff]).2.alloc ≤ 3 := by
+  decide
+
+/-- The hypotheses of the round trip are satisfiable on a non-trivial value. -/
+example : wfSimple (.authChallenge (some [1, 2, 3])) ∧ encSimple (.authChallenge (some [1, 2, 3])) = some (0x0E, [0, 0, 0, 3, 1, 2, 3]) := by
+  refine ⟨?_, by decide⟩
+  intro b hb; injection hb with hb; subst hb; decide
 
 end ScyllaVerif.Props.C08
